@@ -52,7 +52,10 @@ claim("C03",
       "fault oracle and stop point, the file after the run is either byte-identical or is the original cut into "
       "chunks with exactly one token after each chunk, the tokens being those of the entries that lack a reference "
       "(in order, consecutive IDs, at their byte positions): deleting the tokens gives the original back. Proved "
-      "over the rewriter loop of the driver model for any finder. Tie: real binary vs extracted model on the "
+      "over the rewriter loop of the driver model for any finder. C03_canonical_files: the same from the file's TEXT "
+      "alone for every file of the canonical file language (composition with the parser specification theorem "
+      "find_canonical of Proofs/FileSpec.v): the tokens stand at the offsets `expected` computes from the text. "
+      "Tie: real binary vs extracted model on the "
       "repository's Rust corpus, generated statements and a malformed/mutated stream; the predicate (token deletion "
       "restores the original; tokens only at statements lacking a reference) is evaluated directly on the bytes.",
       "What counts as a statement lacking a reference is the finder's answer (C10-C14 decide whether that is right)."
@@ -218,7 +221,14 @@ claim("C10",
       "chars), `!(`, any layout, a string literal of any plain characters and backslash escapes, followed by ANYTHING, "
       "as first statement of a file in message style, the finder (generated grammar through Peg.v, then Glue.v) "
       "returns as first entry exactly the byte offset / line / column of the first character of the literal's value "
-      "with the reference the literal holds. Tie and violation search: files rendered from "
+      "with the reference the literal holds; C10_canonical_files / C10_canonical_parse_tree (Proofs/FileSpec.v) -- the "
+      "PARSER SPECIFICATION THEOREM for a canonical file language: any sequence of items (statement `name!( layout "
+      "\"message\"` with simple or module-qualified name; a name that starts no bracketed macro call; any other "
+      "character), each preceded by any layout, then a final layout (items_ok is purely syntactic): the parse tree "
+      "and the finder's result are computed in closed form for every configuration and both styles -- one entry per "
+      "statement with a configured name and no ignore directive, at the first character of the message value "
+      "(message style) or directly after the bracket with prefix `ref = ` and suffix `; ` (structured style), nothing "
+      "for anything else. Tie and violation search: files rendered from "
       "the canonical file language with an oracle computed from the property text alone, compared with the "
       "implementation's finder, the extracted model, and --check / edit of the real binary.",
       "Known finding F12 (comment opener inside an ordinary string literal hides following statements) is replayed "
@@ -231,7 +241,10 @@ claim("C11",
       "the comments, commented-out statements included, also a line comment on the last line WITHOUT newline) yields "
       "no entry, for every configuration (proved against the generated grammar: the F8 defect would break this "
       "proof); C11_comments_are_skipped (anywhere in a file); C11_unconfigured_or_ignored_is_skipped (any name that "
-      "is not configured, and any statement under an ignore directive, gives no entry whatever its arguments). "
+      "is not configured, and any statement under an ignore directive, gives no entry whatever its arguments); "
+      "C11_canonical_nothing_else / C11_canonical_only_statements (from the parser specification theorem of "
+      "Proofs/FileSpec.v): on every file of the canonical file language, comments, names, paths, other characters and "
+      "statements of unconfigured macros in any number and order yield no entry. "
       "Tie and violation search: decoys (comments of all styles, unconfigured names incl. prefix/suffix/other "
       "module path/other case, configured names without literal message, macro-like text in string literals) among "
       "real statements with the property-text oracle, and decoy-only trees through both modes of the real binary.",
@@ -258,12 +271,17 @@ claim("C14",
       "non-blank line decides alone; a non-comment line means no directive whatever stands above), "
       "C14_only_nearest_line_matters (lines further up are never looked at), C14_nothing_above; with "
       "C11_unconfigured_or_ignored_is_skipped (ignore => no entry) and C10_message_entry (no-kvp => message-style "
-      "entry). The regex-level recognition of the directive spellings is NOT proved; it is decided by exploration: "
+      "entry). Regex level, on the TRANSLATED comment regex with leftmost-first semantics, for ALL comment texts: "
+      "C14_line_comment_directive / C14_block_comment_directive (when the nearest non-blank line is `//` body or "
+      "`/*` body `*/`, the directive is in force iff body, lower-cased with the translated Unicode table and trimmed, "
+      "IS the directive: every letter case and surrounding white space counts, nothing else does), "
+      "C14_code_line_without_slash, C14_directives_apply. Comments after code on the same line and several comments "
+      "on one line are NOT proved; decided by exploration: "
       "generated files with directives / near-misses in every position relative to 1-3 statements, blank-line runs, "
       "indentation, both comment styles, CRLF, plus an enumerated set of placements, against the property-text oracle "
       "on finder, model (translated comment regex, generated Unicode tables) and binary.",
       PARSER_NOTE + COMMON_NOTE,
-      "Coq proof (directive-scan lemmas) + enumerated/generated placement campaign",
+      "Coq proof (directive-scan lemmas + capture theorems on the translated comment regex) + enumerated/generated placement campaign",
       "DESIGN.md section 6, C14")
 
 
